@@ -106,15 +106,16 @@ type Contracts struct {
 	Lemmas  []*Lemma
 	Benign  []string
 	Immut   map[string]map[string]bool // pkgpath -> "Type.field"
+	Ctors   map[string]bool            // display names of start-up functions that may write immutable fields
 	Files   []string
 }
 
 func newContracts() *Contracts {
-	return &Contracts{Externs: map[string]*FuncContract{}, Preds: map[string]*Pred{}, Ghosts: map[string]*GhostVar{}, Immut: map[string]map[string]bool{}}
+	return &Contracts{Externs: map[string]*FuncContract{}, Preds: map[string]*Pred{}, Ghosts: map[string]*GhostVar{}, Immut: map[string]map[string]bool{}, Ctors: map[string]bool{}}
 }
 
 var topKeywords = map[string]bool{"func": true, "extern": true, "pred": true, "ghost": true, "lock": true,
-	"lemma": true, "axiom": true, "benign": true, "fn": true, "immutable": true}
+	"lemma": true, "axiom": true, "benign": true, "fn": true, "immutable": true, "constructors": true}
 var clauseKeywords = map[string]bool{"props": true, "arith": true, "requires": true, "ensures": true,
 	"modifies": true, "loop": true, "invariant": true, "decreases": true, "unroll": true, "trusted": true,
 	"maypanic": true, "guarantee": true, "guards": true, "ghostparam": true, "inst": true, "onreturn": true, "lockassume": true, "assume": true}
@@ -334,6 +335,9 @@ func (cs *Contracts) loadFile(path, pkgPath string) error {
 					return fmt.Errorf("%s:%d: %v", path, l.line, err)
 				}
 				fc.Name = fc.Key
+				if other, dup := cs.Externs[fc.Key]; dup {
+					return fmt.Errorf("%s:%d: second extern contract for %s (first at %s:%d)", path, l.line, fc.Key, other.File, other.Line)
+				}
 				cs.Externs[fc.Key] = fc
 			} else {
 				if err := parseSig(l.rest, fc); err != nil {
@@ -412,6 +416,12 @@ func (cs *Contracts) loadFile(path, pkgPath string) error {
 			}
 			curLemma = &Lemma{Name: ll.name, Clause: c, Axiom: l.kw == "axiom", OptIn: optin, Pkg: pkgPath}
 			cs.Lemmas = append(cs.Lemmas, curLemma)
+		case "constructors":
+			for _, b := range strings.Split(l.rest, ",") {
+				if b = strings.TrimSpace(b); b != "" {
+					cs.Ctors[b] = true
+				}
+			}
 		case "immutable":
 			if cs.Immut[pkgPath] == nil {
 				cs.Immut[pkgPath] = map[string]bool{}
